@@ -5,6 +5,7 @@ import (
 	"go/constant"
 	"go/token"
 	"go/types"
+	"strings"
 	"sync"
 
 	"gosx/smt"
@@ -54,16 +55,16 @@ type deferred struct {
 }
 
 type frame struct {
-	fn       *ssa.Function
-	info     *fnInfo
-	regs     []Value
-	defers   []deferred
-	visits   map[int]int
+	fn        *ssa.Function
+	info      *fnInfo
+	regs      []Value
+	defers    []deferred
+	visits    map[int]int
 	panicking *goPanic
 	recovered bool
-	result   Value
-	unwind   int
-	caller   *frame
+	result    Value
+	unwind    int
+	caller    *frame
 }
 
 func (e *Engine) get(f *frame, v ssa.Value) Value {
@@ -270,11 +271,15 @@ func (e *Engine) runBlocks(f *frame, b *ssa.BasicBlock) (gp *goPanic) {
 		if f.unwind > 0 {
 			bound = f.unwind
 		}
+		derived := false
 		if ub, ok := e.extraCtx["unwind"]; ok {
-			bound = ub.(int)
+			if sub, ok2 := e.extraCtx["unwindFn"].(string); !ok2 || sub == "" || strings.Contains(f.fn.String(), sub) {
+				bound = ub.(int)
+				derived = true
+			}
 		}
 		if f.visits[b.Index] > bound {
-			if e.cfg.UnwindIsBug || e.extraCtx["unwindIsBug"] == true {
+			if e.cfg.UnwindIsBug || (derived && e.extraCtx["unwindIsBug"] == true) {
 				e.addFinding("unwind", fmt.Sprintf("loop exceeded its derived trip bound %d in %s", bound, f.fn.String()), e.stackNames())
 				panic(abortPath{kind: "stop"})
 			}
@@ -775,7 +780,7 @@ func (e *Engine) makeSlice(f *frame, x *ssa.MakeSlice) Value {
 		neg := e.ctx.Cmp(smt.OpBVSlt, lt, e.intC(0))
 		e.check(neg, "makeslice: len out of range")
 		if e.branch(bad) {
-			e.unsupported("make with symbolic length above %d", maxAlloc)
+			e.bigAlloc("length")
 		}
 	} else if !bad.IsFalse() {
 		if lt.Signed() < 0 {
@@ -786,9 +791,18 @@ func (e *Engine) makeSlice(f *frame, x *ssa.MakeSlice) Value {
 	n := e.concretizeLen(lt, "make length")
 	c := n
 	if x.Cap != x.Len {
-		bad := e.ctx.Or(e.ctx.Cmp(smt.OpBVSlt, ct, e.intC(n)), e.ctx.Not(e.ctx.Cmp(smt.OpBVUle, ct, e.intC(maxAlloc))))
+		bad := e.ctx.Or(e.ctx.Cmp(smt.OpBVSlt, ct, e.intC(n)), e.ctx.Cmp(smt.OpBVSlt, ct, e.intC(0)))
 		e.check(bad, "makeslice: cap out of range")
-		c = e.concretizeLen(ct, "make cap")
+		if !ct.IsConst() && e.branch(e.ctx.Not(e.ctx.Cmp(smt.OpBVUle, ct, e.intC(maxAlloc)))) {
+			e.bigAlloc("capacity")
+		}
+		if cc, ok := concInt(ct); ok {
+			c = cc
+		} else {
+			// a symbolic capacity (<= 2^20) only affects when append reallocates, not what
+			// the program computes: use the length
+			c = n
+		}
 	}
 	arr := e.newArrayObj(elem, c)
 	return Slice{Arr: arr, Off: 0, Len: n, Cap: c}
@@ -846,4 +860,16 @@ func (e *Engine) tolerantCall(f *frame, x *ssa.Call) (r Value) {
 func isScalarType(t types.Type) bool {
 	b, ok := t.Underlying().(*types.Basic)
 	return ok && b.Info()&(types.IsInteger|types.IsBoolean) != 0
+}
+
+// bigAlloc: a make() whose size is controlled by symbolic input can exceed 2^20 elements.
+// Harnesses that ask for it (param __alloc_is_bug) get a finding (an input-controlled
+// allocation is how one request exhausts memory: a fatal error no recover catches);
+// otherwise the path is out of the engine's bound.
+func (e *Engine) bigAlloc(what string) {
+	if e.cfg.Params["__alloc_is_bug"] == 1 {
+		e.addFinding("alloc", "allocation whose "+what+" is controlled by the input can exceed 1048576 elements", e.stackNames())
+		panic(abortPath{kind: "stop"})
+	}
+	e.unsupported("make with symbolic %s above %d", what, 1<<20)
 }
